@@ -32,6 +32,7 @@ type hrec struct {
 	keepFor     int32 // self-removal after this many matches (0 = keep)
 	matches     int32
 	queue       chan *qnet.Message
+	kind        string // make (MakeHandler) | add (AddHandler: own queue inside the endpoint) | any (ReceiveAny: one-shot, no closer, no id)
 }
 
 type c17plan struct {
@@ -40,8 +41,8 @@ type c17plan struct {
 }
 
 func c17(c *wk.Ctx) {
-	c.Note("rule", "each plan: one endpoint over a harness stream, 2-12 goroutines released by a barrier doing PRNG-chosen MakeHandler (filters: never/always/pattern x keep/self-remove after n, with scheduling yields inside the filter), RemoveHandler (live, stale, unknown, negative ids), peer frames, then local Close() or peer close, possibly concurrent with further operations. Oracle at quiescence (decided by the goroutine-state quiescence detector, not a timeout): every handler whose MakeHandler returned before shutdown started has closer==1 and queue closed once; others <=1; no filter match after the closer ran; RemoveHandler of unknown/removed ids returns an error; an id is never handed out while its previous holder is still open; no panic (child crash), no deadlock. Distinct non-trivial = distinct plans in which at least two goroutines operated on the handler table and shutdown closed at least one handler.")
-	c.Cases("plan", c.Pick(1500, 100000), func(i int, rng *rand.Rand) { c17one(c, i, rng) })
+	c.Note("rule", "each plan: one endpoint over a harness stream, 2-12 goroutines released by a barrier doing PRNG-chosen MakeHandler / AddHandler / ReceiveAny (filters: never/always/pattern x keep/self-remove after n, with scheduling yields inside the filter), RemoveHandler (live, stale, unknown, negative ids), peer frames, then local Close() or peer close, possibly concurrent with further operations. Oracle at quiescence (decided by the goroutine-state quiescence detector, not a timeout): every handler whose MakeHandler returned before shutdown started has closer==1 and queue closed once; others <=1; no filter match after the closer ran; RemoveHandler of unknown/removed ids returns an error; an id is never handed out while its previous holder is still open; no panic (child crash), no deadlock. Distinct non-trivial = distinct plans in which at least two goroutines operated on the handler table and shutdown closed at least one handler.")
+	c.Cases("plan", c.Pick(5000, 100000), func(i int, rng *rand.Rand) { c17one(c, i, rng) })
 }
 
 func c17one(c *wk.Ctx, i int, rng *rand.Rand) {
@@ -62,6 +63,9 @@ func c17one(c *wk.Ctx, i int, rng *rand.Rand) {
 		mu.Unlock()
 	}
 	var wgConsumers sync.WaitGroup
+	// once ReceiveAny was used, slot ownership is no longer fully known to the monitor: the
+	// id-based checks (remove twice, remove without close, id reuse) are skipped for the plan
+	anonSlots := false
 
 	register := func(r *rand.Rand) {
 		h := &hrec{pattern: uint32(r.Intn(4)), queue: make(chan *qnet.Message, 64)}
@@ -92,6 +96,51 @@ func c17one(c *wk.Ctx, i int, rng *rand.Rand) {
 				atomic.StoreInt64(&h.closerStamp, now())
 			}
 		}
+		h.kind = "make"
+		switch r.Intn(10) {
+		case 0:
+			h.kind = "add"
+		case 1:
+			h.kind = "any"
+		}
+		if h.kind == "any" {
+			// one-shot handler created by the endpoint itself: its channel must be closed exactly once,
+			// after the first message or at shutdown
+			mu.Lock()
+			anonSlots = true // a slot is now held by a handler whose id the harness cannot know
+			ch, _ := ep.ReceiveAny()
+			h.id = -1
+			h.regStamp = now()
+			h.n = len(recs)
+			recs = append(recs, h)
+			mu.Unlock()
+			wgConsumers.Add(1)
+			go func() {
+				defer wgConsumers.Done()
+				for range ch {
+					atomic.AddInt32(&h.received, 1)
+				}
+				atomic.AddInt32(&h.queueClosed, 1)
+				atomic.AddInt32(&h.closerCount, 1) // no closer exists: the close of the channel stands for it
+				atomic.StoreInt64(&h.closerStamp, now())
+			}()
+			return
+		}
+		if h.kind == "add" {
+			mu.Lock()
+			id := ep.AddHandler(filter, func(m *qnet.Message) error { atomic.AddInt32(&h.received, 1); return nil }, closer)
+			h.id = id
+			h.regStamp = now()
+			h.n = len(recs)
+			recs = append(recs, h)
+			if prev, ok := byID[id]; ok && shutdownStamp == 0 && !anonSlots && atomic.LoadInt32(&prev.closerCount) == 0 {
+				viols = append(viols, "id=reused-while-open\x00"+fmt.Sprintf("AddHandler returned id %d while the previous holder of that id is still open", id))
+			}
+			byID[id] = h
+			mu.Unlock()
+			atomic.StoreInt32(&h.queueClosed, 1) // the queue is internal to the endpoint: not observable
+			return
+		}
 		wgConsumers.Add(1)
 		go func() {
 			defer wgConsumers.Done()
@@ -109,7 +158,7 @@ func c17one(c *wk.Ctx, i int, rng *rand.Rand) {
 		h.regStamp = now()
 		h.n = len(recs)
 		recs = append(recs, h)
-		if prev, ok := byID[id]; ok && shutdownStamp == 0 {
+		if prev, ok := byID[id]; ok && shutdownStamp == 0 && !anonSlots {
 			if atomic.LoadInt32(&prev.closerCount) == 0 {
 				viols = append(viols, "id=reused-while-open\x00"+fmt.Sprintf("MakeHandler returned id %d while the previous holder of that id is still open", id))
 			}
@@ -126,6 +175,11 @@ func c17one(c *wk.Ctx, i int, rng *rand.Rand) {
 		case k < 6 && len(recs) > 0:
 			target = recs[r.Intn(len(recs))]
 			id = target.id
+			if id < 0 {
+				target = nil
+				id = -1
+				expectErr = true
+			}
 		case k < 8:
 			id = -1 - r.Intn(5)
 			expectErr = true
@@ -138,7 +192,10 @@ func c17one(c *wk.Ctx, i int, rng *rand.Rand) {
 		if expectErr && err == nil {
 			viol("remove=unknown-accepted", fmt.Sprintf("RemoveHandler(%d) of an id never handed out returned nil", id))
 		}
-		if target != nil && err == nil {
+		mu.Lock()
+		anon := anonSlots
+		mu.Unlock()
+		if target != nil && err == nil && !anon {
 			// the holder of that id at that moment must have been closed by this call (or be closed already and the id re-held)
 			mu.Lock()
 			cur := byID[id]
@@ -163,12 +220,18 @@ func c17one(c *wk.Ctx, i int, rng *rand.Rand) {
 		}
 		target := recs[r.Intn(len(recs))]
 		mu.Unlock()
+		if target.id < 0 {
+			return
+		}
 		e1 := ep.RemoveHandler(target.id)
 		mu.Lock()
 		cur := byID[target.id]
 		mu.Unlock()
 		e2 := ep.RemoveHandler(target.id)
-		if e1 == nil && e2 == nil && cur == target {
+		mu.Lock()
+		anon := anonSlots
+		mu.Unlock()
+		if e1 == nil && e2 == nil && cur == target && !anon {
 			mu.Lock()
 			still := byID[target.id] == target
 			mu.Unlock()
@@ -272,7 +335,7 @@ func c17one(c *wk.Ctx, i int, rng *rand.Rand) {
 		if atomic.LoadInt32(&h.lateMatch) > 0 {
 			viol("match=after-close", fmt.Sprintf("handler #%d (id %d): its filter selected a message after its closer had run", h.n, h.id))
 		}
-		if before && h.closerStamp > sd {
+		if before && atomic.LoadInt64(&h.closerStamp) > sd {
 			closedByShutdown++
 		}
 	}
